@@ -229,13 +229,26 @@ def r3(ctx):
         # (3) Ok(Right(changeset)) only when no instruction is pending
         if lp:
             vec_term = strip(fa.arg_origin(lp[0], 0))
-            okr = [(bb, s, t) for bb, s, t in ok_returns(fa) if is_agg(agg_field(t, "0"), "Right")]
+            # every place where an Ok(Either::Right(..)) is produced — as its own return, or as one alternative
+            # of a value assembled by a helper (`Ok(instructions_or(instructions, changeset))`)
+            okr = []
+            for bb, si_, t in ok_returns(fa):
+                if is_agg(agg_field(t, "0"), "Right"):
+                    okr.append((bb, si_, t))
+                    continue
+                if si_ is None:
+                    continue
+                rv_ = fa.blocks[bb].stmts[si_]["rv"]
+                if rv_["k"] == "agg" and rv_.get("ops"):
+                    for t_, db_ in guarded_values(fa, rv_["ops"][0]):
+                        if is_agg(strip(t_), "Right"):
+                            okr.append((db_ if db_ is not None else bb, si_, t_))
             emp = [x for x in bool_switches(fa, lambda o: o[0] == "call" and o[2].endswith("::is_empty") and strip(o[3][0]) == vec_term)]
-            good = bool(okr) and bool(emp) and all(fa.dominates(emp[0][2], bb) for bb, s, t in okr)
+            good = bool(okr) and bool(emp) and all(any(fa.dominates(e_[2], bb) for e_ in emp) for bb, s, t in okr)
             ctx.check(P, rule, "changeset is released only with no pending instruction", good, "Ok(Right(changeset)) only on instructions.is_empty()",
                       "Ok(Either::Right(changeset)) can be returned while read instructions (unchecked roots) are pending", [loc(fa, bb, s) for bb, s, t in okr])
             for bb, s, t in okr:
-                payload = agg_field(agg_field(t, "0"), "0")
+                payload = agg_field(agg_field(t, "0"), "0") if is_agg(t, "Ok") else agg_field(strip(t), "0")
                 if term_has_call(payload, MT_CHANGESET) is None and resolve_mutlocal(fa, payload) is not None:
                     payload = resolve_mutlocal(fa, payload)   # the &mut-escaping variable, at its initial value
                 ctx.check(P, rule, "released changeset is the one verify_tree/verify_upgrade filled", term_has_call(payload, MT_CHANGESET) is not None, "changeset from self.changeset()",
